@@ -140,6 +140,18 @@ def run(chk, facts, tier):
                         if extra:
                             ok = False
                             rn = rn + ' only if ' + ', '.join(sorted(extra))
+                # ... in whatever form it is written (an early return in front of the answer is a further condition too)
+                if ok:
+                    more = set()
+                    for l, op, r in ats:
+                        if isinstance(l, int):
+                            continue
+                        names = {x.n for x in l.walk() if x.k in REF_KINDS and x.n} | ({x.n for x in r.walk() if x.k in REF_KINDS and x.n} if not isinstance(r, int) else set())
+                        names = {n for n in names if n not in ('opcode', 'size', req, 'LinkLayer', 'LL', 'link_layer', 'header', 'll_control_pdu_code') and not n.startswith('LL_')} - ALLOWED.get(req, set())
+                        more |= names
+                    if more:
+                        ok = False
+                        rn = rn + ' only if ' + ', '.join(sorted(more))
             chk.instance('responses', fn, '%s -> %s (length field %s)' % (req, rn, ln), ok, '' if ok else 'specification: %s is answered by %s with length %s' % (req, spec['response'].get(req), spec['length'].get(spec['response'].get(req, ''), '?')), node=c, key='%s->%s' % (req, rn))
     # never answered
     for fn in handlers:
